@@ -10,8 +10,9 @@
 //!   drain_bytes <k>       consumer().advance_slices(k)
 //!   drain_read <k>        consumer().read(&mut [0; k])
 //!   finish
-//!   zenc b|c <n>  / zdec b|c <n>    one call on a piece of `n` zero bytes, `n` up to > 2^32
+//!   zenc b|c <n>  / zdec b|c <n> [<cut>]   one call on a piece of `n` zero bytes, `n` up to > 2^32
 //!                                   (right after `params`; ends the run; see `zeros.rs`)
+//! Byte strings are hex, or the compact tokens of `util::from_hex` (`*41x65536`, parts joined by `+`).
 //! A decoder run continues after `dec` reported an error: `Decoder::decode` leaves the object
 //! usable (in `InitialState`, over the same iovec), so later `dec` / drain / `finish` ops act on
 //! it; the oracle then judges the input fed since the last error against the output produced
@@ -325,15 +326,19 @@ impl Exec for EncExec {
                 so.tags.push(format!("enc_{}{}", kind, if d.is_empty() { "_nothing" } else { "" }));
                 so
             }
-            ["zenc", m @ ("b" | "c"), n] => {
+            ["zenc", m @ ("b" | "c"), n, rest @ ..] if rest.is_empty() || *rest == ["fe"] => {
                 let Ok(n) = n.parse::<usize>() else { return StepOut::bad() };
+                let fe = !rest.is_empty();
+                if fe && n > zeros::FE_MAX {
+                    return StepOut::bad();
+                }
                 // only on a fresh encoder
                 match self.run.as_ref() {
                     Some(r) if r.ops == 0 && r.snaps.is_empty() => {}
                     _ => return StepOut::bad(),
                 }
                 let run = self.run.take().unwrap();
-                let so = zeros::zenc(run.enc, run.l, &mut self.bufs, m, n);
+                let so = zeros::zenc(run.enc, run.l, &mut self.bufs, m, n, fe);
                 self.bufs.clear();
                 so
             }
@@ -563,15 +568,23 @@ impl Exec for DecExec {
                 so.tags.push(format!("dec_{}{}", kind, if d.is_empty() { "_nothing" } else { "" }));
                 so
             }
-            ["zdec", m @ ("b" | "c"), n] => {
+            ["zdec", m @ ("b" | "c"), n, rest @ ..] if rest.len() <= 1 => {
                 let Ok(n) = n.parse::<usize>() else { return StepOut::bad() };
+                let cut = match rest {
+                    [] => 1usize,
+                    [c] => match c.parse::<usize>() {
+                        Ok(c) if c >= 1 => c,
+                        _ => return StepOut::bad(),
+                    },
+                    _ => return StepOut::bad(),
+                };
                 // only on a fresh decoder
                 match self.run.as_ref() {
                     Some(r) if !r.fed && r.snaps.is_empty() => {}
                     _ => return StepOut::bad(),
                 }
                 let run = self.run.take().unwrap();
-                let so = zeros::zdec(run.dec, run.l, &mut self.bufs, m, n);
+                let so = zeros::zdec(run.dec, run.l, &mut self.bufs, m, n, cut);
                 self.bufs.clear();
                 so
             }
